@@ -159,8 +159,8 @@ def snapshot(conv, queries=(), prefixes=()):
 
 
 def ident_hook(prefix, identifier):
-    """The identifier hook used for subclass runs: rejects one identifier, strips a redundant tag from others."""
-    if identifier in ("y", "bad"):
+    """The identifier hook used for subclass runs: rejects two identifiers and those that begin with 'b' + delimiter, strips a redundant tag from others."""
+    if identifier in ("y", "bad") or identifier[:1] == "b" and identifier[1:2] in (":", "/"):
         return None
     if identifier.startswith("X") and len(identifier) > 1:
         return identifier[1:]
